@@ -26,16 +26,26 @@
     neighbours whose bounding boxes meet the leaf rectangle).  Proved instead: "agrees or returns None"
     unconditionally, and "finds it" whenever the column is reachable in the neighbour graph that
     `search_wave` explores (a breadth-first-search completeness theorem); the planar step is left out.
-  * every clause about `column_track` (Model/Track.lean): columns crossed, order, entry/exit points,
-    abutting segments, lengths.  The model is executable and compared with the code on every run; the
-    clauses are evaluated by exact clipping in the harness.
+  * `column_track` (Model/Track.lean) — proved: every entry/exit point is on the line and on (or, for the
+    line's own end points, inside) its column; sorted by entry distance; no column twice; the crossing of
+    an edge does not depend on the edge's direction (so exit and entry through a shared edge coincide);
+    lengths non-negative and summing to at most the line's length under the decidable `Ordered`; a column
+    crossed at exactly two points more than the clip tolerance apart is listed; duplicate merging only
+    within 1e-3 × longest side; the crossings, and under `RevHyp` the whole track, of the reversed line.
+    NOT proved: that the columns crossed form a chain of neighbours covering the line inside the domain
+    (a planar tessellation fact: needed for "consecutive segments abut" and "lengths add up to the length
+    inside the domain" without hypotheses), the correctness of the Cohen–Sutherland bounding-box test
+    (a hypothesis of `track_lists_crossed_column_partial`, evaluated per case), non-convex columns crossed
+    more than twice.  These remain with the correspondence facet `track` and the exact clipping oracle.
 -/
 import PyTough.Model.Locate
 import PyTough.Proofs.Locate
 import PyTough.Proofs.LocateWave
+import PyTough.Model.Track
+import PyTough.Proofs.LocateTrack4
 
 namespace Props.C12
-open Model.Locate Proofs.Locate
+open Model.Locate Proofs.Locate Model.Track Proofs.Track
 
 /-! ### The column reported really contains the point — whichever search aid is used -/
 
@@ -303,5 +313,129 @@ example : blockContainsPoint demo 2 1 (3/2, 1/4) (-2) = true ∧ blockContainsPo
 -- the region excluded by `reported_block_contains_point_partial`: reported, yet `block_contains_point` is False
 example : blockContainingPoint demo (3/2, 1/4) (1/4) none = .ok (some (1, 1)) ∧
           blockContainsPoint demo 1 1 (3/2, 1/4) (1/4) = false := by decide +kernel
+
+/-! ### `column_track` -/
+
+/-- **Entry and exit points lie on the line**: each point of each entry is `line[0] + s·(line[1] − line[0])`
+    with the recorded parameter `s` in `[−1e-9, 1 + 1e-9]` (the code's own acceptance band; `s = 0` and
+    `s = 1` exactly for the line's end points). -/
+theorem track_points_on_line (g : Geo) (a b : Pt) (segs : List Seg) (h : columnTrack g a b = .ok segs) :
+    ∀ s ∈ segs, s.pin = lerp a b s.sin ∧ InUnitTol s.sin ∧ s.pout = lerp a b s.sout ∧ InUnitTol s.sout := by
+  intro s hs
+  obtain ⟨_, hin, hout⟩ := track_segs_ok h s hs
+  have z : InUnitTol 0 := by unfold InUnitTol lpiTol; constructor <;> decide +kernel
+  have o : InUnitTol 1 := by unfold InUnitTol lpiTol; constructor <;> decide +kernel
+  have la : a = lerp a b 0 := by simp [lerp]
+  have lb : b = lerp a b 1 := by simp [lerp]
+  refine ⟨?_, ?_, ?_, ?_⟩
+  · rcases hin with ⟨h1, h2, _⟩ | ⟨_, _, h3⟩
+    · rw [h1, h2]; exact la
+    · exact h3
+  · rcases hin with ⟨_, h2, _⟩ | ⟨_, h2, _⟩
+    · rw [h2]; exact z
+    · exact h2
+  · rcases hout with ⟨h1, h2, _⟩ | ⟨_, _, h3⟩
+    · rw [h1, h2]; exact lb
+    · exact h3
+  · rcases hout with ⟨_, h2, _⟩ | ⟨_, h2, _⟩
+    · rw [h2]; exact o
+    · exact h2
+
+/-- **… and on their column**: the column is a column of the geometry; the entry point is the line's
+    start point lying inside the column, or a point of an edge of the column (`OnBoundary`); likewise
+    the exit point with the line's end point. -/
+theorem track_points_on_column (g : Geo) (a b : Pt) (segs : List Seg) (h : columnTrack g a b = .ok segs) :
+    ∀ s ∈ segs, s.col < g.ncols ∧
+      ((s.pin = a ∧ g.containsPoint s.col a = true) ∨ OnBoundary (g.poly s.col) s.pin) ∧
+      ((s.pout = b ∧ g.containsPoint s.col b = true) ∨ OnBoundary (g.poly s.col) s.pout) := by
+  intro s hs
+  obtain ⟨hc, hin, hout⟩ := track_segs_ok h s hs
+  refine ⟨hc, ?_, ?_⟩
+  · rcases hin with ⟨h1, _, h3⟩ | ⟨h1, _, _⟩
+    · exact Or.inl ⟨h1, h3⟩
+    · exact Or.inr h1
+  · rcases hout with ⟨h1, _, h3⟩ | ⟨h1, _, _⟩
+    · exact Or.inl ⟨h1, h3⟩
+    · exact Or.inr h1
+
+/-- **Ordered along the line**: sorted by the distance `|sin|·‖line‖` of the entry point from the line start. -/
+theorem track_sorted_by_distance (g : Geo) (a b : Pt) (segs : List Seg) (h : columnTrack g a b = .ok segs) :
+    segs.Pairwise fun s s' => s.tin ≤ s'.tin := track_sorted h
+
+/-- no column is listed twice -/
+theorem track_no_column_twice (g : Geo) (a b : Pt) (segs : List Seg) (h : columnTrack g a b = .ok segs) :
+    (segs.map (·.col)).Nodup := track_columns_nodup h
+
+/-- **Abutting at a shared edge**: the crossing of the line with an edge (point and parameter) is the
+    same whichever way round the edge is listed — so the exit point of one column through an edge and
+    the entry point of its neighbour through the same edge are the same point.  (That consecutive
+    entries of the track *are* such neighbours is the planar fact that is not proved.) -/
+theorem track_abut_at_shared_edge (a b p q : Pt) : edgeCross a b (q, p) = edgeCross a b (p, q) :=
+  edgeCross_reverse_edge a b p q
+
+/-- **Lengths** (`_partial`: under the decidable `Ordered 0`, "entries run forwards without overlap",
+    evaluated on every explored line): each length `(sout − sin)·‖line‖` is non-negative and they add up
+    to at most the length of the line. -/
+theorem track_lengths_partial (segs : List Seg) (h : Ordered 0 segs) :
+    (segs.map fun s => s.sout - s.sin).sum ≤ 1 ∧ ∀ s ∈ segs, 0 ≤ s.sout - s.sin := by
+  have := lengths_sum_le segs 0 h
+  exact ⟨by linarith [this.1], this.2⟩
+
+/-- **A crossed column is listed** (`_partial`): a column that passes the bounding-box test and that the
+    line crosses at exactly two points (what a convex column and a line through none of its vertices
+    give), with parameters inside the line and more than 1e-3 × (longest side) apart, is in the track —
+    when the line does not lie within a single column.  All hypotheses are decidable
+    (`crossedLongB`, `notInOneB`) and evaluated on every explored line. -/
+theorem track_lists_crossed_column_partial (g : Geo) (a b : Pt) (segs : List Seg) (ci : Nat)
+    (h : columnTrack g a b = .ok segs) (hci : ci < g.ncols)
+    (hnb : notInOneB g a b = true)
+    (hlir : lineIntersectsRectangle (g.bbox ci) a b = some true) (hc : crossedLongB g a b ci = true) :
+    ∃ s ∈ segs, s.col = ci :=
+  crossed_column_listed h hci (notInOneB_sound hnb) hlir (crossedLongB_sound hc)
+
+/-- **The repaired merging rule**: every crossing of the line with a polygon is reported by
+    `line_polygon_intersections` or lies within 1e-3 × (longest side) of a reported one, measured along
+    the line — independently of how far from the line start it is. -/
+theorem track_merges_only_close_crossings (poly : Poly) (a b : Pt) (pts : List Cross)
+    (hS : 0 < maxSideSq poly) (h : linePolygonIntersectionsT poly a b = .ok pts) :
+    (∀ c ∈ pts, c ∈ crossings poly a b) ∧
+    ∀ c ∈ crossings poly a b, ∃ c' ∈ pts,
+      (c.t.abs - c'.t.abs) * (c.t.abs - c'.t.abs) * distSq a b * 1000000 ≤ maxSideSq poly :=
+  ⟨lpiT_subset h, every_crossing_represented hS h⟩
+
+/-- **Direction independence of the crossings**: the reversed line meets a polygon in the same points, in
+    the same order, at parameters `1 − t`. -/
+theorem track_crossings_direction_independent (poly : Poly) (a b : Pt) :
+    crossings poly b a = (crossings poly a b).map Cross.rev := crossings_reverse poly a b
+
+/-- **Direction independence of the track** (`_partial`, under the decidable `revHypB`: the line is not
+    within one column, each end point is in at most one column, the bounding-box test gives the same
+    answer both ways, and every column that passes it is not crossed, crossed once inside the line, or
+    crossed twice more than the clip tolerance apart): the track of the reversed line has exactly the
+    same entries with entry and exit exchanged. -/
+theorem track_reverse_partial (g : Geo) (a b : Pt) (T T' : List Seg) (hyp : revHypB g a b = true)
+    (h : columnTrack g a b = .ok T) (h' : columnTrack g b a = .ok T') :
+    ∀ s, s ∈ T ↔ flipSeg s ∈ T' := track_reverse (revHypB_sound hyp) h h'
+
+-- non-vacuity: a line from inside column 0 to inside column 1 of `demo`, the same line reversed, and a line
+-- crossing both columns from outside
+example : columnTrack demo (1/4, 1/2) (7/4, 1/2) =
+    .ok [⟨0, (1/4, 1/2), (1, 1/2), 0, 1/2⟩, ⟨1, (1, 1/2), (7/4, 1/2), 1/2, 1⟩] :=
+  columnTrack_of_sorted (st := ⟨some 0, some 1, [⟨0, (1/4, 1/2), (1, 1/2), 0, 1/2⟩, ⟨1, (1, 1/2), (7/4, 1/2), 1/2, 1⟩]⟩)
+    (by decide +kernel) (by decide +kernel) (by decide +kernel)
+-- the reversed line: the loop (before the final sort) collects the same two entries, flipped
+example : trackLoop demo (7/4, 1/2) (1/4, 1/2) (List.range demo.ncols) {} =
+    .ok ⟨some 1, some 0, [flipSeg ⟨0, (1/4, 1/2), (1, 1/2), 0, 1/2⟩, flipSeg ⟨1, (1, 1/2), (7/4, 1/2), 1/2, 1⟩]⟩ := by
+  decide +kernel
+example : revHypB demo (1/4, 1/2) (7/4, 1/2) = true := by decide +kernel
+example : revHypB demo (-1, 1/4) (3, 3/4) = true ∧ notInOneB demo (-1, 1/4) (3, 3/4) = true ∧
+    crossedLongB demo (-1, 1/4) (3, 3/4) 0 = true ∧
+    lineIntersectsRectangle (demo.bbox 0) (-1, 1/4) (3, 3/4) = some true := by decide +kernel
+example : columnTrack demo (-1, 1/4) (3, 3/4) =
+      .ok [⟨0, (0, 3/8), (1, 1/2), 1/4, 1/2⟩, ⟨1, (1, 1/2), (2, 5/8), 1/2, 3/4⟩] ∧
+    orderedB 0 [⟨0, (0, 3/8), (1, 1/2), 1/4, 1/2⟩, ⟨1, (1, 1/2), (2, 5/8), 1/2, 3/4⟩] = true :=
+  ⟨columnTrack_of_sorted (st := ⟨none, none, [⟨0, (0, 3/8), (1, 1/2), 1/4, 1/2⟩, ⟨1, (1, 1/2), (2, 5/8), 1/2, 3/4⟩]⟩)
+    (by decide +kernel) (by decide +kernel) (by decide +kernel), by decide +kernel⟩
+example : (crossings [(0, 0), (0, 1), (1, 1), (1, 0)] (-1, 1/4) (3, 3/4)).map (·.pt) = [(0, 3/8), (1, 1/2)] := by decide +kernel
 
 end Props.C12
